@@ -6,8 +6,8 @@
     are parameters above ASCII. *)
 From HailV Require Import Common.Prelude HailValues.Model HailValues.Lemmas HailTypes.Peg HailTypes.Model
   HailTypes.PegLemmas HailTypes.EscLemmas HailTypes.ParseBase HailTypes.ParseIdent HailTypes.ParseTypes
-  HailTypes.Lexer HailTypes.LexerLemmas HailTypes.GenEq.
-From HailG Require C31.Gen.
+  HailTypes.Lexer HailTypes.LexerLemmas HailTypes.GenEq Regex.Regex HailTypes.IdModel HailTypes.IdLemmas.
+From HailG Require C31.Gen C31.GenId.
 From Coq Require Import String.
 Open Scope N_scope.
 
@@ -78,6 +78,85 @@ Theorem C31_engine_rejects_bare : forall (java_start_hi java_part_hi uni_word : 
   ~ engine_reads java_start_hi java_part_hi uni_word [97; 178] 58 [].
 Proof. intros js jp uw Hw Hj. exact (engine_rejects_bare_superscript js jp uw Hw Hj). Qed.
 Print Assumptions C31_engine_rejects_bare.
+
+(** ---- Identifiers and string literals printed into the IR text by hail.utils.misc.escape_id / escape_str /
+    parsable_strings (hail/ir/ir.py, table_ir.py, matrix_ir.py, blockmatrix_ir.py: Ref, GetField, field lists, bound
+    names, function names, key lists ...).  HailG.C31.GenId is REGENERATED from hail/python/hail/utils/misc.py. ---- *)
+
+(** The generated definitions are the hand model the theorems below talk about: the pattern of escape_id with its entry
+    point (re.fullmatch) accepts exactly [is_bare] — for every table of Python's \w above ASCII given as ranges —, the
+    quoted alternative is a back-tick, escape_str(s, backticked=True), a back-tick, and escape_str writes [esc_str_char]
+    for every code point. *)
+Theorem C31_escape_id_generated : forall (word_hi : list (N * N)) (s : name),
+  word_hi_ok word_hi = true ->
+  (py_accepts C31.GenId.escape_id_mode (C31.GenId.escape_id_regex word_hi) s
+     <-> is_bare (fun c => in_ranges c word_hi) s = true)
+  /\ C31.GenId.escape_id_quoted s = (96 :: esc_str true s ++ [96])%list
+  /\ (forall b, C31.GenId.escape_str b s = esc_str b s).
+Proof.
+  intros hi s Hhi. split; [exact (generated_regex_iff hi s Hhi)|]. split; [exact (generated_escape_id_quoted s)|].
+  intro b. exact (generated_escape_str b s).
+Qed.
+Print Assumptions C31_escape_id_generated.
+
+Theorem C31_parsable_strings_generated : forall strs : list name,
+  C31.GenId.parsable_strings strs = (40 :: join [32] (map str_literal strs) ++ [41])%list.
+Proof. exact generated_parsable_strings. Qed.
+Print Assumptions C31_parsable_strings_generated.
+
+(** Engine half for escape_id, proved part: a bare name made of Java identifier characters, and EVERY name of
+    Basic-Multilingual-Plane characters that is back-ticked (control characters, quotes, back-ticks, backslashes, line
+    breaks, non-ASCII letters ...), is read back by the engine's identifier lexer (model) as exactly that name, one token,
+    lexing stops at the delimiter. *)
+Theorem C31_escape_id_engine_partial : forall (java_start_hi java_part_hi uni_word : N -> bool) (n : name) (delim : N) (rest : name),
+  id_engine_safe java_part_hi uni_word n = true -> java_part java_part_hi delim = false ->
+  engine_reads_id java_start_hi java_part_hi uni_word n delim rest.
+Proof. intros js jp uw n D rest Hs HD. exact (engine_reads_id_safe js jp uw n D rest Hs HD). Qed.
+Print Assumptions C31_escape_id_engine_partial.
+
+(** ... refuted for ALL names ([engine_accepts_all_ids]) whatever the Unicode tables are: the name U+1F600 ... *)
+Theorem C31_escape_id_engine_refuted : forall (java_start_hi java_part_hi uni_word : N -> bool),
+  ~ engine_accepts_all_ids java_start_hi java_part_hi uni_word.
+Proof.
+  intros js jp uw H. apply (engine_rejects_astral_id js jp uw). apply H; reflexivity.
+Qed.
+Print Assumptions C31_escape_id_engine_refuted.
+
+(** ... is written as a back-ticked backslash-u followed by FIVE hex digits (1F600); the engine does not reject it: it reads the
+    two-character name U+1F60, "0" — a different name, silently. *)
+Theorem C31_escape_id_misreads_astral : forall (java_start_hi java_part_hi uni_word : N -> bool),
+  lex_identifier java_start_hi java_part_hi (utf16 (escape_id uni_word [128512]) ++ [58]) = Some ([8032; 48], [58])%list.
+Proof. intros js jp uw. exact (engine_misreads_astral_id js jp uw). Qed.
+Print Assumptions C31_escape_id_misreads_astral.
+
+(** Bare names, as for escape_parsable: given the two table facts, a² is emitted bare and is not a Java identifier. *)
+Theorem C31_escape_id_rejects_bare : forall (java_start_hi java_part_hi uni_word : N -> bool),
+  uni_word 178 = true -> java_part_hi 178 = false ->
+  ~ engine_reads_id java_start_hi java_part_hi uni_word [97; 178] 58 [].
+Proof. intros js jp uw Hw Hj. exact (engine_rejects_bare_superscript_id js jp uw Hw Hj). Qed.
+Print Assumptions C31_escape_id_rejects_bare.
+
+(** String literals (hail.ir.Str, parsable_strings: escape_str not back-ticked, between double quotes): every string of BMP
+    characters is read back exactly by the engine's string-literal lexer (model); the astral case is misread the same way. *)
+Theorem C31_string_literal_engine_partial : forall (s rest : name),
+  forallb (fun c => c <? 65536) s = true -> engine_reads_str s rest.
+Proof. intros s rest Hs. exact (engine_reads_str_safe s rest Hs). Qed.
+Print Assumptions C31_string_literal_engine_partial.
+
+Theorem C31_string_literal_misreads_astral :
+  lex_string (utf16 (str_literal [128512])) = Some ([8032; 48], [])%list /\ ~ engine_reads_str [128512] [].
+Proof.
+  split; [exact engine_misreads_astral_str|]. unfold engine_reads_str. rewrite app_nil_r, engine_misreads_astral_str.
+  vm_compute. discriminate.
+Qed.
+Print Assumptions C31_string_literal_misreads_astral.
+
+Example C31_example_ids :
+  let uw := fun c => (c =? 178) || (c =? 233) in
+  word_hi_ok [(178, 178); (233, 233)] = true
+  /\ id_engine_safe (fun _ => false) uw [97; 10] = true /\ id_engine_safe (fun c => c =? 233) uw [97; 233] = true
+  /\ escape_id uw [97; 98; 99; 10] = [96; 97; 98; 99; 92; 110; 96]%list.
+Proof. vm_compute. repeat split. Qed.
 
 (** The hypotheses are satisfiable; a concrete round trip with odd names, by computation (fuel 60). *)
 Example C31_example :
